@@ -40,11 +40,11 @@ def env_info():
 
 def plan(tier):
     q = tier == "quick"
-    return [dict(unit="w2", n=200 if q else 5000, builds=["py", "so"], case_timeout=180),
-            dict(unit="w1", n=400 if q else 15000, builds=["py", "so"], case_timeout=60),
-            dict(unit="w5", n=120 if q else 4000, builds=["py", "so"], case_timeout=120),
-            dict(unit="calendars", n=200 if q else 6000, builds=["py"], case_timeout=120),
-            dict(unit="faults", n=(len(FAULTS) * 110) if q else (len(FAULTS) * 1500), builds=["py", "so"], case_timeout=60)]
+    return [dict(unit="w2", n=200 if q else 2000, builds=["py", "so"], case_timeout=180),
+            dict(unit="w1", n=400 if q else 6000, builds=["py", "so"], case_timeout=60),
+            dict(unit="w5", n=120 if q else 1600, builds=["py", "so"], case_timeout=120),
+            dict(unit="calendars", n=200 if q else 2400, builds=["py"], case_timeout=120),
+            dict(unit="faults", n=(len(FAULTS) * 110) if q else (len(FAULTS) * 600), builds=["py", "so"], case_timeout=60)]
 
 
 def floors(tier):
